@@ -179,7 +179,45 @@ pub fn parse_python(src: &str) -> Tree {
     p.parse(src, None).expect("parse")
 }
 
+static HISTORY_ON: std::sync::atomic::AtomicBool = std::sync::atomic::AtomicBool::new(false);
+static HISTORY: std::sync::Mutex<(u64, std::collections::VecDeque<(u64, String)>)> =
+    std::sync::Mutex::new((0, std::collections::VecDeque::new()));
+const HISTORY_CAP: usize = 800;
+
+/// Starts recording every text passed to `load` in this process (C12: histories of loads).
+pub fn record_load_history() {
+    HISTORY_ON.store(true, std::sync::atomic::Ordering::Relaxed);
+}
+
+/// Number of loads so far in this process.
+pub fn load_counter() -> u64 {
+    HISTORY.lock().unwrap().0
+}
+
+/// Texts loaded with sequence numbers in (after, upto].
+pub fn loads_between(after: u64, upto: u64) -> Option<Vec<String>> {
+    let h = HISTORY.lock().unwrap();
+    match h.1.front() {
+        Some((first, _)) if *first <= after + 1 => Some(h.1.iter().filter(|(s, _)| *s > after && *s <= upto).map(|(_, t)| t.clone()).collect()),
+        _ => None,
+    }
+}
+
 pub fn load(tsg: &str) -> Result<File, String> {
+    if HISTORY_ON.load(std::sync::atomic::Ordering::Relaxed) {
+        let was_active = crate::heap::thread_active();
+        crate::heap::set_thread_active(false); // the harness's own bookkeeping stays off the simulated heap
+        {
+            let mut h = HISTORY.lock().unwrap();
+            h.0 += 1;
+            let seq = h.0;
+            h.1.push_back((seq, tsg.to_string()));
+            if h.1.len() > HISTORY_CAP {
+                h.1.pop_front();
+            }
+        }
+        crate::heap::set_thread_active(was_active);
+    }
     File::from_str(language(), tsg).map_err(|e| format!("{}", e))
 }
 
